@@ -2,7 +2,7 @@
     Statements only. *)
 From Coq Require Import List NArith Bool.
 From MOC.Base Require Import RangeSet.
-From MOC.Model Require Import Qty Ops1D Query ST Sweep2D Merge2D.
+From MOC.Model Require Import Qty Ops1D Query ST Sweep2D Merge2D TSIter.
 Import ListNotations.
 Open Scope N_scope.
 
@@ -73,6 +73,15 @@ Theorem C10_store_difference : forall A B, tchain 0 A -> tchain 0 B ->
   tchain 0 (merge2 op_diff A B) /\ nofuse (merge2 op_diff A B).
 Proof. exact st_diff_spec. Qed.
 
+(** the conversions between the two forms preserve the covered pairs; from a range-2D result the
+    elements are well formed *)
+Theorem C10_time_space_iter_as_written : forall l t x, cov2 (time_space_iter l) t x <-> covE l t x.
+Proof. exact time_space_iter_cov. Qed.
+Theorem C10_time_space_iter_shape : forall l, tchain 0 l -> nofuse l -> STchain 0 (time_space_iter l).
+Proof. exact time_space_iter_shape. Qed.
+Theorem C10_from_ranges_it_as_written : forall X t x, covE (from_ranges_it X) t x <-> cov2 X t x.
+Proof. exact from_ranges_it_cov. Qed.
+
 Print Assumptions C10_algebra_checker_exact.
 Print Assumptions C10_result_shape_checker_exact.
 Print Assumptions C10_lookup.
@@ -82,3 +91,6 @@ Print Assumptions C10_range2d_merge_as_written.
 Print Assumptions C10_store_union.
 Print Assumptions C10_store_intersection.
 Print Assumptions C10_store_difference.
+Print Assumptions C10_time_space_iter_as_written.
+Print Assumptions C10_time_space_iter_shape.
+Print Assumptions C10_from_ranges_it_as_written.
